@@ -273,6 +273,112 @@ def releader(ctx, p):
     return {"viol": viol, "stale_tail": stale_end > lo.raftLastApplied - 1 or p["stale"] > 0}
 
 
+def rejoin_conflict(ctx, p):
+    """A read-only node followed a partitioned old leader that kept appending (a conflicting suffix of several batches),
+    then joins a leader that is already in office: it must converge (the leader has to walk back, one probing batch at
+    a time)."""
+    voters = ["v%d" % k for k in range(3)]
+    s = simmod.Sim(ctx.repo, voters, observers=["o0"],
+                   conf=dict(leaderFallbackTimeout=30.0, appendEntriesBatchSizeBytes=p.get("B", 64)), seed=p["seed"])
+    s.connect_all()
+    viol = []
+    ldr = s.elect(among=voters)
+    if ldr is None:
+        return {"viol": [], "skipped": True}
+    n2, n3 = [v for v in voters if v != ldr]
+    s.disconnect("o0", n2)
+    s.disconnect("o0", n3)
+    s.submit(ldr, 1)
+    _alive_run(s, 8)
+    s.cut(ldr, n2)
+    s.cut(ldr, n3)
+    for k in range(p["stale"]):
+        s.submit(ldr, 100 + k)                # reach the observer only; each entry ~ one batch
+    _alive_run(s, 8, among=[ldr, "o0"])
+    l2 = None
+    for _ in range(400):
+        _alive_run(s, 1, among=[n2, n3])
+        l2 = s.leader([n2, n3])
+        if l2 is not None:
+            break
+    if l2 is None:
+        return {"viol": [], "skipped": True, "why": "no second leader"}
+    for k in range(p["fresh"]):
+        s.submit(l2, 200 + k)
+    _alive_run(s, 10, among=[n2, n3])
+    # the observer leaves the old leader and joins the leader in office
+    s.disconnect("o0", ldr)
+    s.connect("o0", l2)
+    steps = int(p.get("settle", 30.0) / 0.0625)
+    other = n3 if l2 == n2 else n2
+    _alive_run(s, steps, among=[l2, other, "o0"])
+    _observer_checks(s, viol)
+    lo, oo = s.objs[l2], s.objs["o0"]
+    if oo.raftLastApplied != lo.raftLastApplied or list(oo.log) != list(lo.log):
+        viol.append({"signature": "observer:not-converged",
+                     "what": "observer o0 held %d uncommitted entries of the cut-off leader %s and joined leader %s (in office): after "
+                             "%.0f s the leader has applied %d (state %r), the observer %d (state %r, log end %d)"
+                             % (p["stale"], ldr, l2, steps * 0.0625, lo.raftLastApplied, list(lo.log)[-3:], oo.raftLastApplied,
+                                list(oo.log)[-3:], s.last_index("o0"))})
+    if s.errors:
+        viol.append({"signature": "tick:exception-escapes", "what": "%s %s on %s" % (s.errors[0][1], s.errors[0][2], s.errors[0][0])})
+    return {"viol": viol}
+
+
+def slow_catchup(ctx, p):
+    """Sending takes time: every message that carries entries costs the sender `cost` seconds.  A read-only node with a
+    large backlog joins late and is served BEFORE the voters (iteration order of the node set): its catch-up may use up
+    the send budget of a pass, but every voter still gets its message in every pass — no voter times out, the leader
+    stays."""
+    voters = ["v%d" % k for k in range(3)]
+    s = simmod.Sim(ctx.repo, voters, observers=[p["obs"]],
+                   conf=dict(appendEntriesBatchSizeBytes=64, leaderFallbackTimeout=30.0), seed=p["seed"])
+    for n, a in enumerate(voters):
+        for b in voters[n + 1:]:
+            s.connect(a, b)
+    viol = []
+    ldr = s.elect(among=voters)
+    if ldr is None:
+        return {"viol": [], "skipped": True}
+    for k in range(p["backlog"]):
+        s.submit(ldr, "w%d" % k + "x" * 40)
+        if k % 10 == 9:
+            _alive_run(s, 1, among=voters)
+    _alive_run(s, 10, among=voters)
+    orig = s._send
+    cost = p["cost"]
+
+    def send(a, b, msg):
+        if msg.get("type") == "append_entries" and (msg.get("entries") or msg.get("transmission")):
+            s.now[a] += cost
+        return orig(a, b, msg)
+    s._send = send
+    term0 = s.objs[ldr].raftCurrentTerm
+    n_changes0 = len(s.state_changes)
+    for v in voters:
+        s.connect(p["obs"], v)
+    # is the observer iterated before some voter at the leader?  (coverage only)
+    order = [n.id for n in (s.P(ldr, "otherNodes") | s.P(ldr, "readonlyNodes"))]
+    first = order and order.index(p["obs"]) < max(order.index(v) for v in voters if v != ldr)
+    steps = int(p.get("settle", 12.0) / 0.0625)
+    for _ in range(steps):
+        for i in voters + [p["obs"]]:
+            s.tick(i, 0.0625)
+        s.deliver_all()
+    s._send = orig
+    changes = [c for c in s.state_changes[n_changes0:] if c[0] in voters]
+    terms = [s.objs[v].raftCurrentTerm for v in voters]
+    if changes or max(terms) != term0:
+        viol.append({"signature": "observer:catch-up-disturbs-voters",
+                     "what": "while read-only node %s (backlog %d entries, %.3f s per sending message, served %s the voters) caught up: "
+                             "voter state changes %s, term %d -> %s, leader now %s"
+                             % (p["obs"], p["backlog"], cost, "before" if first else "after", changes[:4], term0, terms,
+                                s.leader(voters))})
+    _observer_checks(s, viol)
+    oo, lo = s.objs[p["obs"]], s.objs[ldr]
+    return {"viol": viol, "served_first": bool(first), "caught_up": oo.raftLastApplied == lo.raftLastApplied}
+
+
 def gen(ctx):
     rng = ctx.rng("c18_observers")
     out = []
@@ -282,6 +388,10 @@ def gen(ctx):
             if nv >= 4:
                 out.append({"kind": "minority", "nv": nv, "no": no, "keep": 1, "T": 1.0, "seed": 8})
             out.append({"kind": "churn", "nv": nv, "no": no, "steps": 30, "seed": 11 + no})
+    for stale in (4, 9):
+        out.append({"kind": "rejoin_conflict", "nv": 3, "no": 1, "stale": stale, "fresh": 12, "B": 64, "seed": 41 + stale})
+    for obs in ("a0", "o0", "w0", "zz"):          # ids that sort / hash before and after the voters' ids
+        out.append({"kind": "slow_catchup", "nv": 3, "no": 1, "obs": obs, "backlog": 300, "cost": 0.02, "settle": 20.0, "seed": 51})
     for stale in (10, 3, 0):
         for fresh in (2, 5):
             out.append({"kind": "releader", "nv": 3, "no": 1, "T": 0.5, "stale": stale, "fresh": fresh, "seed": 21 + stale})
@@ -295,14 +405,15 @@ def gen(ctx):
     return out
 
 
-KINDS = {"minority": minority, "churn": churn, "releader": releader}
+KINDS = {"minority": minority, "churn": churn, "releader": releader, "rejoin_conflict": rejoin_conflict,
+         "slow_catchup": slow_catchup}
 
 
 def run(ctx):
     logging.getLogger().setLevel(logging.CRITICAL + 1)
     t0 = time.time()
     viols = []
-    cov = {"churn": 0, "minority": 0, "releader": 0, "observer_acks_in_minority": 0, "minority_stepdowns": 0, "commands_via_observer_success": 0,
+    cov = {"churn": 0, "minority": 0, "releader": 0, "rejoin_conflict": 0, "slow_catchup": 0, "observer_acks_in_minority": 0, "minority_stepdowns": 0, "commands_via_observer_success": 0,
            "skipped": 0, "by_observers": {}}
     distinct = set()
     ps = gen(ctx)
@@ -320,8 +431,10 @@ def run(ctx):
         if p["kind"] == "minority":
             cov["observer_acks_in_minority"] += r["observer_acks"]
             cov["minority_stepdowns"] += 1 if r["stepped_down"] else 0
-        elif p["kind"] == "releader":
+        elif p["kind"] in ("releader", "rejoin_conflict"):
             pass
+        elif p["kind"] == "slow_catchup":
+            cov["slow_catchup_served_first"] = cov.get("slow_catchup_served_first", 0) + (1 if r.get("served_first") else 0)
         else:
             cov["commands_via_observer_success"] += r["obs_success"]
         distinct.add(hashlib.sha1(json.dumps(p, sort_keys=True).encode()).hexdigest())
@@ -331,7 +444,9 @@ def run(ctx):
                 viols.append(v)
     res = {"cases": done, "distinct": len(distinct), "coverage": cov, "samples": ps[:2], "disagreements": [],
            "violations": viols[:6], "wall_s": round(time.time() - t0, 2)}
-    if cov["releader"] < 2:
+    if cov["rejoin_conflict"] < 1 or cov.get("slow_catchup_served_first", 0) < 1:
+        res["inconclusive"] = "observer joining a leader in office with a conflicting suffix / served before the voters not reached: %r" % (cov,)
+    elif cov["releader"] < 2:
         res["inconclusive"] = "re-elected leader with an observer on the same connection not reached: %r" % (cov,)
     elif cov["churn"] < 10 or cov["minority"] < 10 or cov["observer_acks_in_minority"] < 20 or cov["commands_via_observer_success"] < 5:
         res["inconclusive"] = "too little exercised: %r" % (cov,)
